@@ -2,9 +2,10 @@
 # usage: tools/try_seed.sh <ID> <tier> [props...]  — verify the seed, then run the given checks (default: its own property) against it
 ID=$1; TIER=${2:-quick}; shift 2 2>/dev/null
 PROPS=${*:-$ID}
-/verif/tools/verify_seed.sh $ID > /tmp/v/$ID.verify.log 2>&1
-grep -A3 "^== " /tmp/v/$ID.verify.log | grep -v "^--" | cut -c1-200
+SUF=${SEEDSUF:-}
+/verif/tools/verify_seed.sh $ID > /tmp/v/$ID$SUF.verify.log 2>&1
+grep -A3 "^== \|PATCH DOES\|DOES NOT" /tmp/v/$ID$SUF.verify.log | grep -v "^--" | cut -c1-200
 for p in $PROPS; do
-  echo "#### ./check $p $TIER on seeded $ID"
-  (cd /verif && VERIF_REPO=/tmp/v/$ID ./check $p $TIER 2>&1 | cut -c1-260 | head -12)
+  echo "#### ./check $p $TIER on seeded $ID$SUF"
+  (cd /verif && VERIF_REPO=/tmp/v/$ID$SUF ./check $p $TIER 2>&1 | cut -c1-260 | head -12)
 done
